@@ -40,7 +40,10 @@ type catchEvent struct {
 	activated       atomic.Bool
 	awaitingActions []chan IAction
 	once            sync.Once
-	satisfier       *logic.CatchEventSatisfier
+	// started tells whether the node's loop exists (it is started by the
+	// first token that reaches the node)
+	started   atomic.Bool
+	satisfier *logic.CatchEventSatisfier
 }
 
 func newCatchEvent(wr *wiring, element *schema.CatchEvent) (evt *catchEvent, err error) {
@@ -94,8 +97,15 @@ func (evt *catchEvent) run(ctx context.Context, sender tracing.ISenderHandle) {
 }
 
 func (evt *catchEvent) ConsumeEvent(ev event.IEvent) (result event.ConsumptionResult, err error) {
-	evt.mch <- processEventMessage{event: ev}
 	result = event.Consumed
+	if !evt.started.Load() {
+		// No token has reached the node yet: nobody listens, and nothing
+		// drains the mailbox. The loop would discard the event as "not
+		// listening" once it exists; queueing it here only fills the mailbox
+		// and, after 2n+1 events, blocks the publisher for ever.
+		return
+	}
+	evt.mch <- processEventMessage{event: ev}
 	return
 }
 
@@ -103,6 +113,7 @@ func (evt *catchEvent) NextAction(ctx context.Context, flow Flow) chan IAction {
 	evt.once.Do(func() {
 		sender := evt.tracer.RegisterSender()
 		go evt.run(ctx, sender)
+		evt.started.Store(true)
 	})
 
 	response := make(chan IAction, 1)
